@@ -115,7 +115,7 @@ PLANS = {
         theorems=[],
         runs=[dict(suite='parse', mix='examples,text,structured', n=dict(quick=4000, thorough=200000), projection='body',
                    tags=['C01'], literal_oracle=True),
-              dict(suite='e2e', n=dict(quick=60, thorough=1500), projection='identity', tags=['C01'])],
+              dict(suite='e2e', n=dict(quick=300, thorough=6000), projection='identity', tags=['C01'])],
         correspondence='syntax tree of the parse and the body of the generated code vs Ructe.template / Ructe.writeRust; every printed text literal is decoded by the Lean model of rustc\'s literal lexer and compared with the text node',
         rule='every ASCII code point except @{} alone / at the start / middle / end of a run, at 7 nesting positions; random text over quotes, backslashes, CR/LF, NUL, controls, multi-byte scalars, escape look-alikes, the three escapes, comments; structured templates with their documented tree; non-trivial = distinct accepted syntax trees',
         assumptions=['rustc lexes literals as the Rust Reference says (modelled by decodeStrLit / decodeByteStrLit; rustc itself is the judge in the e2e runs)'],
@@ -274,7 +274,7 @@ PLANS = {
     'C03': dict(
         module='RucteProps.C03',
         theorems=[],
-        runs=[dict(suite='e2e', n=dict(quick=150, thorough=3000), projection='identity', tags=['C03']),
+        runs=[dict(suite='e2e', n=dict(quick=800, thorough=12000), projection='identity', tags=['C03']),
               dict(suite='parse', mix='structured,examples', n=dict(quick=1500, thorough=50000), projection='body', tags=['C03'])],
         correspondence='bytes written by the rustc-compiled generated functions vs Ructe.renderL (specification semantics under the mini-Rust Sem) of the model\'s parse; syntax tree and body code of structured templates vs the model',
         rule='typed template programs: 1..5 templates per program in up to 3 module levels, acyclic calls with 0..3 Content blocks (empty / comment-only / nested directives and calls), if / else-if chains / if-let / for over slices, tuples (& patterns), struct destructuring, ranges, enumerate / match with 2..3 arms, every relational operator, negation, &&, ||; 3 argument sets per program; every rendering re-run under fault sinks (failure at every byte offset for renderings up to 48 bytes, sampled beyond; chunk sizes 1 / 3 / 7 / unlimited; Interrupted every 2nd / 5th call); non-trivial = distinct renderings + distinct accepted syntax trees',
@@ -286,7 +286,7 @@ PLANS = {
     'C04': dict(
         module='RucteProps.C04',
         theorems=[],
-        runs=[dict(suite='e2e', n=dict(quick=150, thorough=3000), projection='identity', tags=['C04'], args=['--layout'])],
+        runs=[dict(suite='e2e', n=dict(quick=800, thorough=12000), projection='identity', tags=['C04'], args=['--layout'])],
         correspondence='as C03, on programs with calls and Content blocks across modules (templates printed with random layouts)',
         rule='typed template programs: 1..5 templates per program in up to 3 module levels, acyclic calls with 0..3 Content blocks (empty / comment-only / nested directives and calls), if / else-if chains / if-let / for over slices, tuples (& patterns), struct destructuring, ranges, enumerate / match with 2..3 arms, every relational operator, negation, &&, ||; 3 argument sets per program; every rendering re-run under fault sinks (failure at every byte offset for renderings up to 48 bytes, sampled beyond; chunk sizes 1 / 3 / 7 / unlimited; Interrupted every 2nd / 5th call); non-trivial = distinct renderings',
         assumptions=['user fragments are pure and infallible', 'module name resolution is rustc\'s (the generated crate compiles or the check reports it)'],
@@ -297,7 +297,7 @@ PLANS = {
     'C14': dict(
         module='RucteProps.C14',
         theorems=[],
-        runs=[dict(suite='e2e', n=dict(quick=150, thorough=3000), projection='identity', tags=['C14']),
+        runs=[dict(suite='e2e', n=dict(quick=800, thorough=12000), projection='identity', tags=['C14']),
               dict(suite='html', n=dict(quick=5000, thorough=200000), projection='identity', tags=['C14'])],
         correspondence='compiled behaviour under fault-injecting sinks (inside the generated main.rs) and the escaping writer under scheduled sinks vs Esc.toHtmlDisplay / Ructe.execL',
         rule='typed template programs: 1..5 templates per program in up to 3 module levels, acyclic calls with 0..3 Content blocks (empty / comment-only / nested directives and calls), if / else-if chains / if-let / for over slices, tuples (& patterns), struct destructuring, ranges, enumerate / match with 2..3 arms, every relational operator, negation, &&, ||; 3 argument sets per program; every rendering re-run under fault sinks (failure at every byte offset for renderings up to 48 bytes, sampled beyond; chunk sizes 1 / 3 / 7 / unlimited; Interrupted every 2nd / 5th call); non-trivial = distinct renderings',
